@@ -13,6 +13,7 @@ import (
 	"sync/atomic"
 	"time"
 
+	"golang.org/x/sys/unix"
 	"tags.cncf.io/container-device-interface/pkg/cdi"
 )
 
@@ -39,7 +40,8 @@ func hooksInit() {
 			hookMux.mu.RLock()
 			var hs []hookFn
 			for _, h := range hookMux.byPrefix {
-				if strings.HasPrefix(arg, h.prefix) {
+				// whole path components only: ".../auto_2" must not see ".../auto_20/..."
+				if arg == h.prefix || strings.HasPrefix(arg, h.prefix+"/") {
 					hs = append(hs, h.fn)
 				}
 			}
@@ -61,7 +63,7 @@ func hookPrefix(prefix string, h hookFn) func() {
 	hookMux.mu.Lock()
 	hookMux.next++
 	id := hookMux.next
-	hookMux.byPrefix[id] = prefixHook{prefix, h}
+	hookMux.byPrefix[id] = prefixHook{strings.TrimRight(prefix, "/"), h}
 	hookMux.mu.Unlock()
 	return func() {
 		hookMux.mu.Lock()
@@ -86,7 +88,10 @@ func hookGlobal(h hookFn) func() {
 
 // autoCache is an auto-refresh cache with an anchor directory used for
 // logical quiescence. The anchor must be among the configured directories.
+var autoCacheIDs atomic.Int64
+
 type autoCache struct {
+	id            int64 // makes the sentinel names of different caches distinct
 	C             *cdi.Cache
 	Anchor        string
 	seq           int
@@ -118,7 +123,7 @@ func opString(n int) string {
 // prefix of all its directories (used to route hook events); anchor is one of
 // dirs, exists for the whole scenario and never receives Spec files.
 func newAutoCache(root, anchor string, dirs []string) (*autoCache, error) {
-	a := &autoCache{Anchor: anchor, seen: make(chan string, 1024), Events: map[string]int64{}}
+	a := &autoCache{Anchor: anchor, seen: make(chan string, 1024), Events: map[string]int64{}, id: autoCacheIDs.Add(1)}
 	a.unhook = hookPrefix(root, func(point, arg string, n int) {
 		if point != "watch.event" {
 			return
@@ -137,21 +142,86 @@ func newAutoCache(root, anchor string, dirs []string) (*autoCache, error) {
 			}
 		}
 	})
-	c, err := cdi.NewCache(cdi.WithSpecDirs(dirs...), cdi.WithAutoRefresh(true))
-	if err != nil {
-		a.unhook()
-		return nil, err
+	// The number of inotify instances is limited per user (fs.inotify.max_user_instances),
+	// so other processes of this uid can make watcher creation fail for a while: that is a
+	// state of the machine, not of the library - wait for an instance and try again.
+	for attempt := 0; ; attempt++ {
+		c, err := cdi.NewCache(cdi.WithSpecDirs(dirs...), cdi.WithAutoRefresh(true))
+		if err != nil {
+			a.unhook()
+			return nil, err
+		}
+		a.C = c
+		if !watcherMissing(c) {
+			return a, nil
+		}
+		releaseCache(c)
+		a.C = nil
+		if attempt >= 7 {
+			a.unhook()
+			return nil, fmt.Errorf("no inotify instance available (8 attempts)")
+		}
+		envShortages.Add(1)
+		waitInotify(15 * time.Second)
 	}
-	a.C = c
+}
+
+// envShortages counts how often the machine (not a fault injected by the
+// harness) had no inotify instance left for this user.
+var envShortages atomic.Int64
+
+// watcherMissing tells whether an auto-refresh cache reports that it could not
+// create its watcher.
+func watcherMissing(c *cdi.Cache) bool {
 	for _, errs := range c.GetErrors() {
 		for _, e := range errs {
 			if strings.Contains(e.Error(), "failed to create watcher") {
-				a.Close()
-				return nil, fmt.Errorf("no inotify instance available: %v", e)
+				return true
 			}
 		}
 	}
-	return a, nil
+	return false
+}
+
+// inotifyAvailable probes whether this user can create an inotify instance now.
+func inotifyAvailable() bool {
+	fd, err := unix.InotifyInit1(unix.IN_CLOEXEC)
+	if err != nil {
+		return false
+	}
+	unix.Close(fd)
+	return true
+}
+
+// waitInotify waits (bounded) until an inotify instance can be created.
+func waitInotify(max time.Duration) bool {
+	deadline := time.Now().Add(max)
+	for {
+		if inotifyAvailable() {
+			return true
+		}
+		if time.Now().After(deadline) {
+			return false
+		}
+		time.Sleep(200 * time.Millisecond)
+	}
+}
+
+// newRefAutoCache creates an auto-refresh cache with the given options for use
+// as a reference, riding out a shortage of inotify instances on the machine.
+func newRefAutoCache(opts ...cdi.Option) (*cdi.Cache, bool) {
+	for attempt := 0; ; attempt++ {
+		c, _ := cdi.NewCache(opts...)
+		if c == nil || !watcherMissing(c) {
+			return c, true
+		}
+		if attempt >= 7 {
+			return c, false
+		}
+		releaseCache(c)
+		envShortages.Add(1)
+		waitInotify(15 * time.Second)
+	}
 }
 
 // Hold makes the watcher goroutine block at the next (non-sentinel) event it
@@ -177,7 +247,7 @@ func (a *autoCache) Quiesce() bool {
 	var names []string
 	for try := 0; try < 6; try++ {
 		a.seq++
-		name := fmt.Sprintf(".q%d.sentinel", a.seq)
+		name := fmt.Sprintf(".q%d-%d.sentinel", a.id, a.seq)
 		f, err := os.Create(filepath.Join(a.Anchor, name))
 		if err != nil {
 			return false
